@@ -360,6 +360,90 @@ def loopback_case(kind, values, mode):
                         % (tuple(values), mode, raised, getattr(raised, '__dict__', None)), case)
 
 
+def loopback_release_in_flight(n_late):
+    """The requester leaves the association normally while the peer still has responses in flight: the peer sends
+    n_late more C-FIND responses after it got the A-RELEASE-RQ and only then its A-RELEASE-RP.  The association
+    must end as a release: the peer sees exactly one A-RELEASE-RQ and never an A-ABORT."""
+    import socket
+    import threading
+    import time
+    from pynetdicom2 import applicationentity, sopclass, exceptions
+    from .. import refpdu, refcmd, loopback as lb
+    case = {'kind': 'loopback', 'what': 'release-in-flight', 'values': [n_late], 'mode': 'late-responses'}
+    srv = socket.socket(socket.AF_INET, socket.SOCK_STREAM)
+    srv.bind(('127.0.0.1', 0))
+    srv.listen(1)
+    port = srv.getsockname()[1]
+    errors, seen = [], []
+
+    def peer():
+        try:
+            conn, _ = srv.accept()
+            conn.settimeout(8)
+            rq = refpdu.parse_pdu(_read_pdu(conn))
+            pcs = [it for it in rq['items'] if it['t'] == 0x20]
+            conn.sendall(refpdu.enc_pdu(fd.ac_spec([(it['id'], 0, svc.IMPLICIT) for it in pcs], 16384)))
+            find = b''
+            pc = None
+            while True:                                   # the C-FIND-RQ (command + identifier fragments)
+                p = refpdu.parse_pdu(_read_pdu(conn))
+                pc = p['pdvs'][0]['id']
+                if p['pdvs'][-1]['data'][0] == 2:
+                    break
+                if p['pdvs'][-1]['data'][0] & 1:
+                    find += p['pdvs'][-1]['data'][1:]
+            cmd, _ = refcmd.wellformed(find)
+
+            def rsp(status, ds):
+                c = refcmd.encode({0x0002: cmd.get(0x0002), 0x0100: 0x8020, 0x0120: cmd.get(0x0110),
+                                   0x0800: 1 if ds else 0x0101, 0x0900: status})
+                pdvs = [{'id': pc, 'data': b'\x03' + c}] + ([{'id': pc, 'data': b'\x02' + ds}] if ds else [])
+                return b''.join(refpdu.enc_pdu({'t': 4, 'pdvs': [v]}) for v in pdvs)
+            ident = svc.enc_ds(svc.simple_ds(PatientName='LATE'))
+            conn.sendall(rsp(0xFF00, ident))
+            raw = _read_pdu(conn)                         # what the requester sends after the first match
+            seen.append(raw[0])
+            for _i in range(n_late):
+                conn.sendall(rsp(0xFF00, ident))
+            conn.sendall(refpdu.enc_pdu({'t': 6}))
+            conn.settimeout(3)
+            try:
+                while True:
+                    more = _read_pdu(conn)
+                    if more is None:
+                        break
+                    seen.append(more[0])
+            except (socket.timeout, OSError):
+                pass
+            conn.close()
+        except Exception as exc:      # noqa
+            errors.append(exc)
+        finally:
+            srv.close()
+    th = threading.Thread(target=peer, daemon=True)
+    th.start()
+    ae = applicationentity.ClientAE('CLI', [svc.IMPLICIT])
+    ae.timeout = 6
+    ae.add_scu(sopclass.qr_find_scu)
+    raised = None
+    try:
+        with ae.request_association({'aet': 'SRV', 'address': '127.0.0.1', 'port': port}) as assoc:
+            for ds, status in assoc.get_scu(svc.PATIENT_FIND)(svc.simple_ds(PatientName='*', QueryRetrieveLevel='PATIENT'), 1):
+                break                                     # the caller has what it wanted and leaves normally
+    except exceptions.DCMTimeoutError:
+        raise lb.Inconclusive('library time-out')
+    except Exception as exc:
+        raised = exc
+    th.join(12)
+    if errors:
+        raise lb.Inconclusive('scripted peer failed: %r' % (errors[0],))
+    if raised is not None:
+        raise Violation('%s:loopback:release-raised:%s' % (PROP, lib_frame(raised)), 'leaving normally raised %r' % (raised,), case)
+    if seen != [5]:
+        raise Violation('%s:loopback:release-in-flight' % PROP, 'normal exit with %d response(s) still in flight: the peer received '
+                        'PDU types %r, expected exactly one A-RELEASE-RQ' % (n_late, seen), case)
+
+
 def run_loopback(ctx, n_rounds):
     from .. import loopback as lb
     cases = [('abort', (2, 6), 'coalesced'), ('abort', (0, 0), 'coalesced'), ('abort', (2, 1), 'separate'),
@@ -374,6 +458,15 @@ def run_loopback(ctx, n_rounds):
                 ctx.inconclusive += 1
             except Violation as v:
                 ctx.fail(v.key, v.what, v.case)
+        for n_late in (0, 1, 3):
+            try:
+                loopback_release_in_flight(n_late)
+                ctx.case(('loopback', 'release-in-flight', n_late, r), True, labels=['loopback-raw-peer', 'release-in-flight'],
+                         sample={'loopback': 'release-in-flight', 'late_responses': n_late})
+            except lb.Inconclusive:
+                ctx.inconclusive += 1
+            except Violation as v:
+                ctx.fail(v.key, v.what, v.case)
 
 
 # ------------------------------------------------------------------------------------------------
@@ -384,7 +477,7 @@ def run(ctx):
                 'or A-RELEASE-RQ arriving before any DIMSE exchange, between two exchanges, inside a half-consumed '
                 'C-FIND response stream and during a multi-fragment C-STORE; leaving request_association normally or '
                 'through 3 exception types / an exception raised while an SCU generator is half consumed; acceptor '
-                'side peer abort/release after 0-3 served requests; 6 loopback cases with a raw-socket peer; non-trivial = non-default field values or an event '
+                'side peer abort/release after 0-3 served requests; 9 loopback cases with a raw-socket peer (incl. normal exit while responses are still in flight); non-trivial = non-default field values or an event '
                 'in mid-exchange')
     ctx.assumptions = ['provider replaced by vf/fakedul.py (the own handling by the provider of these PDUs is C04/C05)',
                        'a raw-socket scripted peer exercises the real requesting stack over loopback (A-ABORT coalesced with a response and '
@@ -412,7 +505,7 @@ def run(ctx):
             ctx.check(acceptor_peer_event, ev, after)
 
     run_loopback(ctx, 5 if ctx.thorough else 1)
-    n = 3000 if ctx.thorough else 150
+    n = 20000 if ctx.thorough else 150
 
     def fn(value):
         which, triple, pos = value
@@ -445,7 +538,10 @@ def replay(case):
     elif k == 'loopback':
         from .. import loopback as lb
         try:
-            loopback_case(case['what'], tuple(case['values']), case['mode'])
+            if case['what'] == 'release-in-flight':
+                loopback_release_in_flight(case['values'][0])
+            else:
+                loopback_case(case['what'], tuple(case['values']), case['mode'])
         except lb.Inconclusive as inc:
             print('inconclusive: %s' % inc)
     else:
